@@ -177,10 +177,10 @@ Theorem C09_map_sound_committed : forall ranges ms p x,
 Proof. exact map_sound_committed. Qed.
 
 (* ------------------------------------------------------------------ MMR completeness, bounded *)
-(* Finite-domain theorem (the bound 12 is part of the statement): for canonical distinct
+(* Finite-domain theorem (the bound 15 is part of the statement): for canonical distinct
    leaves and every non-empty increasing selection, compute_proof succeeds, the proof verifies
    against the committed root and contains the selected leaves. *)
-Theorem C09_mmr_complete : forall n sel, (1 <= n <= 12)%nat -> In sel (sublists (nseqN 0 n)) ->
+Theorem C09_mmr_complete : forall n sel, (1 <= n <= 15)%nat -> In sel (sublists (nseqN 0 n)) ->
   complete_at n sel = true.
 Proof. exact mmr_complete_bounded. Qed.
 
